@@ -428,8 +428,12 @@ Section WorldP.
     intros (Hh & Hs & Hex) Hok Hrep Hrefl. unfold t_step, p_step. rewrite <- Hs.
     destruct (nth_error (tw_slots heap tw) (st_target imm s)) as [o|] eqn:Eo; [|trivial].
     destruct (all_some (map (t_operand imm (tw_slots heap tw)) (st_operands imm s))) as [vs|] eqn:Ev; [|trivial].
-    unfold step_ok in Hok. apply andb_true_iff in Hok. destruct Hok as [Hok Hexit].
+    unfold step_ok in Hok. apply andb_true_iff in Hok. destruct Hok as [Hok Hcls].
+    apply andb_true_iff in Hok. destruct Hok as [Hok Hexit].
     apply andb_true_iff in Hok. destruct Hok as [Hok Hperm]. apply andb_true_iff in Hok. destruct Hok as [Hfw Hwf].
+    assert (Hesc : escapes_handler imm F s = None).
+    { unfold exit_class_ok in Hcls. destruct (escapes_handler imm F s); [discriminate|reflexivity]. }
+    rewrite Hesc.
     rewrite <- (first_truthy_ok _ _ _ Ev) in Hexit.
     pose proof (routing_faithful F value (nth_val imm vs) Truthy Byval (methods o) (st_op imm s) Hfw Hwf Hexit) as Hfaith.
     unfold faithful in Hfaith.
@@ -539,7 +543,8 @@ Section WorldP.
     assert (Hops : forall i, unbox_s imm (pw_exported heap pw) (box_c imm (nth_val imm vs i)) = Ok (nth_val imm vs i)).
     { apply (operands_unbox (pw_slots heap pw) _ (st_operands imm s)); auto. }
     destruct (route (methods o) (st_op imm s)) as [rq w| | | |] eqn:R; try contradiction.
-    - destruct Hfaith as (sv & Hsv & Hact & Hchk & _).
+    - destruct (escapes_handler imm F s) as [esc|]; [split; [eexists; reflexivity|]; split; reflexivity|].
+      destruct Hfaith as (sv & Hsv & Hact & Hchk & _).
       assert (Hserve : forall h, Serves h (pw_exported heap pw) o (rqmap (nth_val imm vs) rq) = (Raise AttributeError, h)).
       { intros h. unfold owner_serves. cbn [unbox_s]. rewrite Hoex. rewrite (traverse_ok _ _ _ Hops). rewrite Hsv.
         rewrite Hchk, Hperm. reflexivity. }
@@ -567,7 +572,7 @@ Lemma failing_read_runs_twice F : f_getattr_repeats F = true ->
   option_map (fun x => pw_heap nat (snd x))
              (p_run unit (fun _ => true) (fun _ => false) (fun _ => tt) nat w_apply_count (fun _ => []) (fun _ => TypeError) conf_classic F pw [w_step_read]) = Some 2%nat.
 Proof.
-  destruct F as [a b c]. cbn [f_getattr_repeats]. intros ->. cbv zeta. split; [reflexivity|]. split; reflexivity.
+  destruct F as [a b d c]. cbn [f_getattr_repeats]. intros ->. cbv zeta. split; [reflexivity|]. split; reflexivity.
 Qed.
 
 Definition w_apply_log (a : act (val unit)) (h : list (told (val unit))) (o : oid) : result (val unit) * list (told (val unit)) :=
@@ -584,8 +589,26 @@ Lemma exit_told_type_error F : f_ctxexit_delivers F = false ->
              (p_run unit (fun _ => true) (fun _ => false) (fun _ => tt) _ w_apply_log (fun _ => ["__exit__"]) (fun _ => TypeError) conf_classic F pw [w_step_exit])
     = Some [TTypeError].
 Proof.
-  destruct F as [a b c]. cbn [f_ctxexit_delivers]. intros ->. cbv zeta. split; reflexivity.
+  destruct F as [a b d c]. cbn [f_ctxexit_delivers]. intros ->. cbv zeta. split; reflexivity.
 Qed.
+
+Definition w_step_exit_base : step unit :=
+  {| st_target := 0; st_op := OSpecial "__exit__" 3 []; st_operands := [PExc unit OtherError; PExc unit OtherError; PImm unit tt] |}.
+Lemma exit_skipped_for_base_exceptions F : f_ctxexit_delivers F = true -> f_ctxexit_base F = false ->
+  let tw := {| tw_heap := []; tw_slots := [0%nat] |} in
+  let pw := {| pw_heap := []; pw_exported := [0%nat]; pw_slots := [0%nat] |} in
+  option_map (fun x => (fst x, tw_heap _ (snd x)))
+             (t_run unit (fun _ => true) (fun _ => false) (fun _ => tt) _ w_apply_log (fun _ => ["__exit__"]) (fun _ => TypeError) tw [w_step_exit_base])
+    = Some ([Ok (VImm unit tt)], [TClass (VExc unit OtherError)]) /\
+  option_map (fun x => (fst x, pw_heap _ (snd x)))
+             (p_run unit (fun _ => true) (fun _ => false) (fun _ => tt) _ w_apply_log (fun _ => ["__exit__"]) (fun _ => TypeError) conf_classic F pw [w_step_exit_base])
+    = Some ([Raise OtherError], []).
+Proof.
+  destruct F as [a b d c]. cbn [f_ctxexit_delivers f_ctxexit_base]. intros -> ->. cbv zeta. split; reflexivity.
+Qed.
+Lemma exit_kept_for_base_exceptions F : f_ctxexit_delivers F = true -> f_ctxexit_base F = true ->
+  step_ok unit (fun _ => true) conf_classic F w_step_exit_base = true.
+Proof. destruct F as [a b d c]. cbn [f_ctxexit_delivers f_ctxexit_base]. intros -> ->. reflexivity. Qed.
 
 (* a number-like target: values are numbers (None stands for NotImplemented); the object holds an integer, its own __add__
    declines anything but integers below 100, while the reflected method of a "float" (>= 100) accepts it: MyInt(3) + 5.0 *)
@@ -612,7 +635,7 @@ Lemma reflection_lost F : f_reflects F = false ->
   option_map fst (p_run _ (fun _ => true) w_ni w_bool nat w_apply_num (fun _ => ["__add__"]) (fun _ => TypeError) conf_classic F pw w_steps_num)
     = Some [Ok (VImm _ (Some 8%nat)); Raise TypeError; Ok (VImm _ (Some 0%nat))].
 Proof.
-  destruct F as [a b c]. cbn [f_reflects]. intros ->. cbv zeta. split; [reflexivity|]. split; reflexivity.
+  destruct F as [a b d c]. cbn [f_reflects]. intros ->. cbv zeta. split; [reflexivity|]. split; reflexivity.
 Qed.
 Lemma reflection_kept F : f_reflects F = true ->
   let tw := {| tw_heap := 3%nat; tw_slots := [0%nat] |} in
@@ -620,7 +643,7 @@ Lemma reflection_kept F : f_reflects F = true ->
   option_map fst (p_run _ (fun _ => true) w_ni w_bool nat w_apply_num (fun _ => ["__add__"]) (fun _ => TypeError) conf_classic F pw w_steps_num)
   = option_map fst (t_run _ (fun _ => true) w_ni w_bool nat w_apply_num (fun _ => ["__add__"]) (fun _ => TypeError) tw w_steps_num).
 Proof.
-  destruct F as [a b c]. cbn [f_reflects]. intros ->. cbv zeta. reflexivity.
+  destruct F as [a b d c]. cbn [f_reflects]. intros ->. cbv zeta. reflexivity.
 Qed.
 
 (* ------------------------------------------------------------------ 3. buffered iteration *)
